@@ -128,6 +128,25 @@ func hasOpt(t *Task, o string) bool {
 	return false
 }
 
+// sharedOpts holds the option values that tasks with SharedOpts re-use: a
+// caller may build its options once and pass the same values to every call.
+// Sequential engines only; reset at the start of every scenario.
+var sharedOpts = map[string]fit.DecodeOption{}
+
+func resetSharedOpts() { sharedOpts = map[string]fit.DecodeOption{} }
+
+func optionValue(t *Task, name string, mk func() fit.DecodeOption) fit.DecodeOption {
+	if !t.SharedOpts {
+		return mk()
+	}
+	if o, ok := sharedOpts[name]; ok {
+		return o
+	}
+	o := mk()
+	sharedOpts[name] = o
+	return o
+}
+
 // runTask executes one task against the real library. prior holds the results
 // of tasks already executed in this scenario (Encode of an earlier result).
 func runTask(t *Task, media map[string][]byte, sched Yielder, prior map[int]*Result) (res *Result) {
@@ -179,10 +198,10 @@ func runTask(t *Task, media map[string][]byte, sched Yielder, prior map[int]*Res
 		opts = append(opts, fit.WithLogger(lg))
 	}
 	if hasOpt(t, "unknownFields") {
-		opts = append(opts, fit.WithUnknownFields())
+		opts = append(opts, optionValue(t, "unknownFields", fit.WithUnknownFields))
 	}
 	if hasOpt(t, "unknownMessages") {
-		opts = append(opts, fit.WithUnknownMessages())
+		opts = append(opts, optionValue(t, "unknownMessages", fit.WithUnknownMessages))
 	}
 	switch t.Call {
 	case "Decode":
@@ -326,6 +345,7 @@ func headerFromBytes(m []byte) (fit.Header, bool) {
 // runScenarioSeq executes the tasks of a scenario one after another in this
 // process (engines rx, pipe, hist). Order: History if given, else task order.
 func runScenarioSeq(sc *Scenario) []*Result {
+	resetSharedOpts()
 	media := sc.buildMedia()
 	order := sc.History
 	if len(order) == 0 {
